@@ -40,8 +40,6 @@ func NewGroup(modules ...Module) *Group {
 
 	// Initialize groups modules.
 	for _, m := range modules {
-		mgr := m.Manager()
-
 		// Skip non-values.
 		switch {
 		case m == nil:
@@ -51,6 +49,10 @@ func NewGroup(modules ...Module) *Group {
 			// If nil values are given via a struct, they are will be interfaces to a
 			// nil type. Ignore these too.
 			continue
+		}
+
+		mgr := m.Manager()
+		switch {
 		case mgr == nil:
 			// Skip modules without manager.
 			continue
